@@ -10,6 +10,8 @@ bool ref_zuc256_eea3(const uint8_t key[32], const uint8_t *iv, size_t iv_len, co
 bool ref_zuc_eia3(const uint8_t key[16], const uint8_t iv[16], const uint8_t *msg, uint32_t bits, Bytes &tag);
 bool ref_zuc256_eia3(const uint8_t key[32], const uint8_t *iv, size_t iv_len, const uint8_t *msg, uint32_t bits, size_t tag_len, Bytes &tag);
 bool ref_snow3g_f8_keystream(const uint8_t key[16], const uint8_t iv[16], uint8_t *ks, size_t len);
+bool ref_zuc_lfsr_stream(const uint8_t *key, size_t key_len, const uint8_t *iv, size_t iv_len, size_t tag_len, size_t clocks, std::vector<uint32_t> &x, std::vector<uint32_t> *ks = nullptr);
+bool ref_snow3g_lfsr_stream(const uint8_t key[16], const uint8_t iv[16], size_t clocks, std::vector<uint32_t> &x, std::vector<uint32_t> *ks = nullptr);
 bool ref_snow3g_uia2(const uint8_t key[16], const uint8_t iv[16], const uint8_t *msg, uint32_t bits, Bytes &tag);
 bool ref_kasumi_f8_keystream(const uint8_t key[16], const uint8_t iv[8], uint8_t *ks, size_t len);
 bool ref_kasumi_f9_user(const uint8_t key[16], const uint8_t *msg, size_t len, Bytes &tag);
